@@ -174,3 +174,103 @@ Theorem rs_check_then_insert_not_linearizable :
   ra_replay rt_empty (cf_log c) = None /\
   rt_abs (rt_del (cf_tab c) (hx "682e74657374") [] []) = [].
 Proof. vm_compute. repeat split. Qed.
+
+(* ---------- Muxer.handle delivers only to the routed listener ---------- *)
+Lemma rs_mx_deliver_routed {P} (same : P -> P -> bool) (s s' : rstate P) h p u x :
+  mx_deliver same false s s' h p u = Some x ->
+  exists r, rt_get_vhost s h p u = Some r /\ x = rt_pay r.
+Proof.
+  unfold mx_deliver. destruct (rt_get_vhost s h p u) as [r|]; [|discriminate].
+  destruct (existsb _ (rt_abs s')); [|discriminate]. intro H; inversion H; subst. eauto.
+Qed.
+
+Theorem rs_mx_delivers_best_match {P} (same : P -> P -> bool) toks : mx_relookup toks = false ->
+  forall (hist : list (rt_op P)) (s' : rstate P) h p u x,
+  mx_deliver same (mx_relookup toks) (rt_run hist) s' h p u = Some x ->
+  exists r, rs_best_match (rt_abs (rt_run hist)) h p u = Some r /\ x = rt_pay r.
+Proof.
+  intros Ht hist s' h p u x H. rewrite Ht in H. apply rs_mx_deliver_routed in H as [r [G ->]].
+  exists r. split; [|reflexivity]. rewrite <- rq_get_vhost_refines_best_match. exact G.
+Qed.
+
+(* regression witness: with a second look-up a connection routed to (and checked against) one
+   listener is handed to the listener of another route *)
+Theorem rs_mx_relookup_hands_to_other_route :
+  let s := rt_run [RAdd (hx "612e6578616d706c652e636f6d") [] [] 1; RAdd (hx "2a2e6578616d706c652e636f6d") [] [] 2] in
+  let s' := rt_del s (hx "612e6578616d706c652e636f6d") [] [] in
+  mx_deliver Z.eqb true s s' (hx "612e6578616d706c652e636f6d") [] [] = Some 2 /\
+  mx_deliver Z.eqb false s s' (hx "612e6578616d706c652e636f6d") [] [] = None.
+Proof. vm_compute. split; reflexivity. Qed.
+
+(* ---------- a refused HTTPSProxy.Run leaves every other proxy's routes alone ---------- *)
+Section PxRun.
+  Context {P : Type}.
+  Variable pay : P.
+  Notation rstate := (rstate P).
+
+  Definition rs_own (tracked : list bytes) (r : route P) : Prop :=
+    exists d, In d tracked /\ r = mkRoute (lower d) [] [] pay.
+
+  Lemma rs_fold_del (tracked : list bytes) : forall s : rstate, rp_wf s ->
+    let s' := fold_left (fun (t : rstate) x => rt_del t x [] []) tracked s in
+    rp_wf s' /\
+    forall r, rp_in r s' <->
+      (rp_in r s /\ ~ exists d, In d tracked /\ rt_dom r = lower d /\ rt_loc r = [] /\ rt_user r = []).
+  Proof.
+    induction tracked as [|d tr IH]; intros s Hwf; simpl.
+    - split; [exact Hwf|]. intro r. split; [intro H; split; [exact H|intros [d [[] _]]]|tauto].
+    - destruct (rp_del_ok s d [] [] Hwf) as [Hwf1 Hin1].
+      destruct (IH _ Hwf1) as [Hwf2 Hin2]. split; [exact Hwf2|].
+      intro r. rewrite Hin2, Hin1. split.
+      + intros [[A B] C]. split; [exact A|]. intros [d0 [[<-|Hd] E]]; [apply B; exact E|apply C; eauto].
+      + intros [A B]. split; [split; [exact A|]|].
+        * intro E. apply B. exists d. split; [left; reflexivity|exact E].
+        * intros [d0 [Hd E]]. apply B. exists d0. split; [right; exact Hd|exact E].
+  Qed.
+
+  Lemma rs_px_run_refused_inv (s0 : rstate) doms : forall (s : rstate) tracked s',
+    rp_wf s ->
+    (forall r, rp_in r s <-> (rp_in r s0 \/ rs_own tracked r)) ->
+    (forall d, In d tracked -> ~ exists r, rp_in r s0 /\ rt_dom r = lower d /\ rt_loc r = [] /\ rt_user r = []) ->
+    px_run false s doms pay tracked = (s', false) ->
+    rp_wf s' /\ forall r, rp_in r s' <-> rp_in r s0.
+  Proof.
+    induction doms as [|d doms IH]; intros s tracked s' Hwf Hs Hfresh Hrun; simpl in Hrun; [discriminate|].
+    destruct (rt_add s d [] [] pay) as [s1|] eqn:A.
+    - destruct (rp_add_ok _ _ _ _ _ _ Hwf A) as [Hwf1 Hin1].
+      apply (IH s1 (d :: tracked) s' Hwf1); [| |exact Hrun].
+      + intro r. rewrite Hin1, Hs. unfold rs_own. split.
+        * intros [->|[H|[d0 [Hd ->]]]]; [right; exists d; split; [left; reflexivity|reflexivity]|left; exact H|].
+          right. exists d0. split; [right; exact Hd|reflexivity].
+        * intros [H|[d0 [[<-|Hd] ->]]]; [right; left; exact H|left; reflexivity|right; right; exists d0; auto].
+      + intros d0 [<-|Hd]; [|apply Hfresh; exact Hd].
+        intros [r [Hr E]]. assert (N : rt_add s d [] [] pay = None); [|congruence].
+        apply (rp_add_none s d [] [] pay Hwf). exists r. split; [apply Hs; left; exact Hr|exact E].
+    - inversion Hrun; subst s'; clear Hrun.
+      destruct (rs_fold_del tracked s Hwf) as [Hwf' Hin']. split; [exact Hwf'|].
+      intro r. rewrite Hin', Hs. split.
+      + intros [[H|[d0 [Hd ->]]] N]; [exact H|]. exfalso. apply N. exists d0. simpl. auto.
+      + intro H. split; [left; exact H|]. intros [d0 [Hd E]]. apply (Hfresh d0 Hd). exists r. auto.
+  Qed.
+
+  (* a refused Run (some custom domain is owned by another proxy) leaves the route set exactly as it
+     was: the owner keeps its route, and nothing of the refused proxy stays behind *)
+  Theorem rs_px_run_refused_unchanged toks : px_track_first toks = false ->
+    forall (hist : list (rt_op P)) doms s',
+    px_run (px_track_first toks) (rt_run hist) doms pay [] = (s', false) ->
+    rp_wf s' /\ forall r, In r (rt_abs s') <-> In r (rt_abs (rt_run hist)).
+  Proof.
+    intros Ht hist doms s' H. rewrite Ht in H.
+    destruct (rs_px_run_refused_inv (rt_run hist) doms (rt_run hist) [] s' (rp_run_wf hist)) as [Hwf' Hin']; [| |exact H|].
+    - intro r. split; [intro X; left; exact X|intros [X|[d [[] _]]]; exact X].
+    - intros d [].
+    - split; [exact Hwf'|]. intro r. rewrite (rp_in_abs s' r Hwf'), (rp_in_abs _ r (rp_run_wf hist)). apply Hin'.
+  Qed.
+End PxRun.
+
+(* regression witness: tracking the refused listener before looking at the error deletes the owner's route *)
+Theorem rs_px_track_first_deletes_owner_route :
+  let s := rt_run [RAdd (hx "612e6578616d706c652e636f6d") [] [] 1] in
+  rt_abs (fst (px_run true s [hx "412e6578616d706c652e636f6d"] 2 [])) = [] /\
+  rt_abs (fst (px_run false s [hx "412e6578616d706c652e636f6d"] 2 [])) = rt_abs s.
+Proof. vm_compute. split; reflexivity. Qed.
